@@ -321,7 +321,7 @@ class Check:
         evidence = dict(property_id=self.prop, tier=self.tier, seed=self.seed, level=self.level,
                         coverage=cov, assumptions=self.assumptions, wall_s=round(time.time() - self.t0, 2),
                         violations=total_v - sum(listed.values()))
-        evdir = os.path.join(VERIF, "evidence") if REPO == "/repo" else os.path.join(WORK, "evidence-alt")
+        evdir = os.path.join(VERIF, "evidence") if (REPO == "/repo" and not getattr(self, "replaying", False)) else os.path.join(WORK, "evidence-alt")
         os.makedirs(evdir, exist_ok=True)
         with open(os.path.join(evdir, self.prop + ".json"), "w") as f:
             json.dump(evidence, f, indent=1, sort_keys=True, default=str)
@@ -363,6 +363,9 @@ def main(run):
     a = ap.parse_args()
     seed = int(os.environ.get("VERIF_SEED", "0") or 0)
     c = Check(a.prop, a.tier, seed)
+    if a.replay:
+        a.replay = os.path.abspath(a.replay)  # workers run in their own directories
+        c.replaying = True
     try:
         run(c, a.replay)
         rc = c.finish()
